@@ -27,6 +27,7 @@ def hist_events():
     ev.append(['preamble', wrgraph.PROBE_TEXT, 'utf-16', 4, None, None])
     ev.append(['meta', wrgraph.PROBE_META, None])
     ev.append(['diff', b'a\n', None, None, None])
+    ev.append(['diff', b'a', 'text', None, None])
     return ev
 
 
